@@ -278,8 +278,11 @@ Proof.
   intros st s Hp f. unfold WSession.elem_writeall.
   destruct (fault_kind s) as [[| | |n]|] eqn:Ek; try exact (api_step_spec st AWrite s Hp).
   destruct (fires_pre AWrite s (or_introl Ek)) as [-> Hd].
-  exists (ws_init st), []. split; [|auto].
-  unfold fail_state. rewrite app_nil_r, Nat.add_0_r, <- Hp. destruct st; reflexivity.
+  destruct (s_eloop s).
+  - exists true, []. split; [|auto].
+    unfold fail_state, set_init. rewrite app_nil_r, Nat.add_0_r, <- Hp. reflexivity.
+  - exists (ws_init st), []. split; [|auto].
+    unfold fail_state. rewrite app_nil_r, Nat.add_0_r, <- Hp. destruct st; reflexivity.
 Qed.
 
 (* ------------------------------------------------------------------ *)
@@ -324,18 +327,20 @@ Proof.
   - destruct Hs as [f' [E [_ [Hk Hd]]]]. rewrite E in H. inversion H; subst. apply inv_ok; assumption.
 Qed.
 
-Lemma inv_loop : forall l st st' o, inv st -> writeall_loop st l = (st', o) -> inv st'.
+Lemma inv_loop : forall dr l st st' o, inv st -> writeall_loop dr st l = (st', o) -> inv st'.
 Proof.
   induction l as [|s l IH]; intros st st' o Hi H; simpl in H.
   - inversion H; subst. exact Hi.
   - pose proof (elem_spec st s (iv_pend st Hi)) as Hs. simpl in Hs. destruct (fires AWrite s).
-    + destruct Hs as [i [c [E [Hii _]]]]. rewrite E in H. inversion H; subst. apply inv_fail; assumption.
+    + destruct Hs as [i [c [E [Hii _]]]]. rewrite E in H.
+      pose proof (inv_fail st i c Hi Hii) as Hi'.
+      destruct (swallows dr s); [eapply IH; eauto | inversion H; subst; exact Hi'].
     + destruct Hs as [f' [E [_ [Hk Hd]]]]. rewrite E in H. eapply IH; [|exact H]. apply inv_ok; assumption.
 Qed.
 
 Lemma inv_wstep : forall st op st' o, inv st -> wstep st op = (st', o) -> inv st'.
 Proof.
-  intros st [a s | rm l] st' o Hi H.
+  intros st [a s | rm dr l] st' o Hi H.
   - rewrite wstep_call in H. eapply inv_api_step; eauto.
   - simpl in H. destruct rm; [inversion H; subst; exact Hi | eapply inv_loop; eauto].
 Qed.
@@ -405,7 +410,7 @@ Proof.
   simpl in Hs. rewrite Hf in Hs. rewrite wstep_call. exact Hs.
 Qed.
 
-Theorem failed_writeall_root_no_effect : forall st l, wstep st (OWriteall true l) = (st, Raised).
+Theorem failed_writeall_root_no_effect : forall st dr l, wstep st (OWriteall true dr l) = (st, Raised).
 Proof. reflexivity. Qed.
 
 (* ------------------------------------------------------------------ *)
@@ -513,22 +518,28 @@ Proof.
   - destruct Hs as [f' [E [Hn [Hk Hda]]]]. eexists. split; [exact E|]. apply gsynced_ok; assumption.
 Qed.
 
-Lemma loop_gsynced : forall l st ms1 c ms2,
+Lemma loop_gsynced : forall dr l st ms1 c ms2,
   gsynced st ms1 c ms2 -> forallb (fun s => negb (dirty AWrite s)) l = true ->
-  exists st', writeall_loop st l = (st', if existsb (fires AWrite) l then Raised else Returned) /\
-              gsynced st' ms1 c (ms2 ++ map (fun s => full_member (file_of_src AWrite s)) (ok_prefix l)).
+  exists st', writeall_loop dr st l = (st', if existsb (stops dr) l then Raised else Returned) /\
+              gsynced st' ms1 c (ms2 ++ map (fun s => full_member (file_of_src AWrite s)) (ok_prefix dr l)).
 Proof.
   induction l as [|s l IH]; intros st ms1 c ms2 Hg Hcl.
   - exists st. simpl. rewrite app_nil_r. split; [reflexivity | exact Hg].
   - simpl in Hcl. apply andb_true_iff in Hcl. destruct Hcl as [Hc1 Hc2]. apply negb_true_iff in Hc1.
     pose proof (elem_spec st s (gs_pend _ _ _ _ Hg)) as Hs. cbv zeta in Hs.
-    change (writeall_loop st (s :: l)) with
-      (match elem_writeall st s with (st', Raised) => (st', Raised) | (st', Returned) => writeall_loop st' l end).
-    change (existsb (fires AWrite) (s :: l)) with (fires AWrite s || existsb (fires AWrite) l).
-    change (ok_prefix (s :: l)) with (if fires AWrite s then [] else s :: ok_prefix l).
-    destruct (fires AWrite s).
-    + destruct Hs as [i [c' [E [Hii Hc]]]]. rewrite (Hc Hc1) in E. rewrite E. simpl.
-      eexists. split; [reflexivity|]. rewrite app_nil_r. apply gsynced_fail_clean; assumption.
+    change (writeall_loop dr st (s :: l)) with
+      (match elem_writeall st s with
+       | (st', Raised) => if swallows dr s then writeall_loop dr st' l else (st', Raised)
+       | (st', Returned) => writeall_loop dr st' l end).
+    change (existsb (stops dr) (s :: l)) with (stops dr s || existsb (stops dr) l).
+    change (ok_prefix dr (s :: l)) with
+      (if fires AWrite s then (if swallows dr s then ok_prefix dr l else []) else s :: ok_prefix dr l).
+    unfold stops at 1. destruct (fires AWrite s).
+    + destruct Hs as [i [c' [E [Hii Hc]]]]. rewrite (Hc Hc1) in E. rewrite E.
+      pose proof (gsynced_fail_clean _ _ _ _ i Hg Hii) as Hg'.
+      destruct (swallows dr s); simpl.
+      * exact (IH _ _ _ _ Hg' Hc2).
+      * eexists. split; [reflexivity|]. rewrite app_nil_r. exact Hg'.
     + destruct Hs as [f' [E [Hn [Hk Hda]]]]. rewrite E. simpl orb.
       destruct (IH _ ms1 c _ (gsynced_ok _ _ _ _ _ _ Hg Hn Hk Hda) Hc2) as [st' [H2 S2]].
       exists st'. split; [exact H2|]. rewrite <- app_assoc in S2. exact S2.
@@ -538,7 +549,7 @@ Lemma wstep_gsynced : forall st ms1 c ms2 op,
   gsynced st ms1 c ms2 -> clean_op op = true ->
   exists st', wstep st op = (st', expected_out op) /\ gsynced st' ms1 c (ms2 ++ expected op).
 Proof.
-  intros st ms1 c ms2 [a s | rm l] Hg Hc.
+  intros st ms1 c ms2 [a s | rm dr l] Hg Hc.
   - rewrite wstep_call. apply call_gsynced; [exact Hg|]. simpl in Hc. apply negb_true_iff in Hc. exact Hc.
   - simpl in *. destruct rm.
     + exists st. rewrite app_nil_r. split; [reflexivity | exact Hg].
@@ -633,8 +644,8 @@ Proof.
     split; [exact Hf|]. simpl. unfold full_member, is_dir. rewrite Hn, Hk, Hd. reflexivity.
 Qed.
 
-Lemma loop_from : forall l st st' o srcs, inv st -> Forall (from_ok_src srcs) (ws_done st) ->
-  writeall_loop st l = (st', o) ->
+Lemma loop_from : forall dr l st st' o srcs, inv st -> Forall (from_ok_src srcs) (ws_done st) ->
+  writeall_loop dr st l = (st', o) ->
   Forall (from_ok_src (srcs ++ map (fun s => (AWrite, s)) l)) (ws_done st').
 Proof.
   induction l as [|s l IH]; intros st st' o srcs Hi H E; simpl in E.
@@ -642,8 +653,13 @@ Proof.
   - pose proof (elem_spec st s (iv_pend st Hi)) as Hs. cbv zeta in Hs.
     change (map (fun s0 => (AWrite, s0)) (s :: l)) with ((AWrite, s) :: map (fun s0 => (AWrite, s0)) l).
     destruct (fires AWrite s) eqn:Ef.
-    + destruct Hs as [i [c [E1 _]]]. rewrite E1 in E. inversion E; subst.
-      apply (from_ok_weaken srcs). exact H.
+    + destruct Hs as [i [c [E1 [Hii _]]]]. rewrite E1 in E.
+      destruct (swallows dr s).
+      * assert (H' : Forall (from_ok_src (srcs ++ [(AWrite, s)])) (ws_done (fail_state st i c)))
+          by (simpl; apply from_ok_weaken; exact H).
+        pose proof (IH _ _ _ _ (inv_fail st i c Hi Hii) H' E) as H2.
+        rewrite <- app_assoc in H2. exact H2.
+      * inversion E; subst. apply (from_ok_weaken srcs). exact H.
     + destruct Hs as [f' [E1 [Hn [Hk Hd]]]]. rewrite E1 in E.
       pose proof (ok_state_from st f' AWrite s srcs H Ef Hn Hk Hd) as H'.
       pose proof (IH _ _ _ _ (inv_ok st f' _ Hi Hk Hd) H' E) as H2.
@@ -657,7 +673,7 @@ Proof.
   - inversion E; subst. apply from_ok_weaken. exact H.
   - destruct (wstep st op) as [st1 o] eqn:E1. destruct (run st1 ops) as [st2 os] eqn:E2.
     inversion E; subst. simpl. rewrite app_assoc. eapply IH; [eapply inv_wstep; eauto | | exact E2].
-    destruct op as [a s | rm l].
+    destruct op as [a s | rm dr l].
     + rewrite wstep_call in E1. pose proof (api_step_spec st a s (iv_pend st Hi)) as Hs. simpl in Hs.
       destruct (fires a s) eqn:Ef.
       * destruct Hs as [i [c [E3 _]]]. rewrite E3 in E1. inversion E1; subst. simpl.
@@ -682,6 +698,32 @@ Proof.
   intros f Hin. unfold ws_files in Hin. rewrite (iv_pend st Hi), app_nil_r in Hin.
   apply in_map_iff in Hin. destruct Hin as [p [<- Hp]]. rewrite Forall_forall in Hf. exact (Hf p Hp).
 Qed.
+
+(* writeall: a member's failure always reaches the caller, except the one case the code filters
+   on purpose: an ELOOP error under dereference=True *)
+Theorem writeall_failure_reaches_caller : forall dr l st, reachable st ->
+  existsb (stops dr) l = true -> snd (wstep st (OWriteall false dr l)) = Raised.
+Proof.
+  intros dr l st Hr. pose proof (reachable_inv st Hr) as Hi. clear Hr. simpl.
+  revert st Hi. induction l as [|s l IH]; intros st Hi Hex; [discriminate|].
+  simpl in Hex. pose proof (elem_spec st s (iv_pend st Hi)) as Hs. cbv zeta in Hs.
+  change (writeall_loop dr st (s :: l)) with
+    (match elem_writeall st s with
+     | (st', Raised) => if swallows dr s then writeall_loop dr st' l else (st', Raised)
+     | (st', Returned) => writeall_loop dr st' l end).
+  unfold stops in Hex at 1. destruct (fires AWrite s).
+  - destruct Hs as [i [c [E [Hii _]]]]. rewrite E. destruct (swallows dr s); simpl in Hex.
+    + apply IH; [apply inv_fail; assumption | exact Hex].
+    + reflexivity.
+  - destruct Hs as [f' [E [_ [Hk Hd]]]]. rewrite E. simpl in Hex.
+    apply IH; [apply inv_ok; assumption | exact Hex].
+Qed.
+
+Lemma stops_not_eloop : forall dr s, fires AWrite s = true -> s_eloop s = false -> stops dr s = true.
+Proof. intros dr s Hf He. unfold stops, swallows. rewrite Hf, He, andb_false_r. reflexivity. Qed.
+
+Lemma stops_no_deref : forall s, fires AWrite s = true -> stops false s = true.
+Proof. intros s Hf. unfold stops, swallows. rewrite Hf. reflexivity. Qed.
 
 (* ------------------------------------------------------------------ *)
 (** * Whatever failed: a member that passes its check has the right bytes *)
@@ -785,18 +827,18 @@ Proof. exact (later_writes_intact crc32 Z.eqb zeqb_spec). Qed.
 (** * Concrete histories (executable instance, CRC-32)                  *)
 (* ------------------------------------------------------------------ *)
 
-Definition sx := mkSrc 0 KData [88; 88] None.
-Definition sw := mkSrc 9 KData [87; 87; 87] None.
-Definition sy := mkSrc 4 KData [89; 89; 89] None.
-Definition sb := mkSrc 2 KFile [66; 66; 66] None.
-Definition sdir := mkSrc 3 KDir [] None.
-Definition slink := mkSrc 5 KLink [116] None.
-Definition sa_open (sticky : bool) := mkSrc 1 KFile [65; 65; 65; 65] (Some (mkFault FOpen sticky)).
+Definition sx := mkSrc 0 KData [88; 88] None false.
+Definition sw := mkSrc 9 KData [87; 87; 87] None false.
+Definition sy := mkSrc 4 KData [89; 89; 89] None false.
+Definition sb := mkSrc 2 KFile [66; 66; 66] None false.
+Definition sdir := mkSrc 3 KDir [] None false.
+Definition slink := mkSrc 5 KLink [116] None false.
+Definition sa_open (sticky : bool) := mkSrc 1 KFile [65; 65; 65; 65] (Some (mkFault FOpen sticky)) false.
 Definition sa_read (k : nat) (sticky : bool) :=
-  mkSrc 1 KData [65; 65; 65; 65; 65; 65; 65; 65] (Some (mkFault (FRead k) sticky)).
-Definition s_missing := mkSrc 6 KFile [67] (Some (mkFault FStat true)).
-Definition s_badname := mkSrc 7 KData [68] (Some (mkFault FName true)).
-Definition s_dangling := mkSrc 8 KLink [110] (Some (mkFault FOpen true)).
+  mkSrc 1 KData [65; 65; 65; 65; 65; 65; 65; 65] (Some (mkFault (FRead k) sticky)) false.
+Definition s_missing := mkSrc 6 KFile [67] (Some (mkFault FStat true)) false.
+Definition s_badname := mkSrc 7 KData [68] (Some (mkFault FName true)) false.
+Definition s_dangling := mkSrc 8 KLink [110] (Some (mkFault FOpen true)) false.
 
 (* what remains after a source failed midway: the k bytes stay in the folder.  When nothing with
    data is written afterwards, the LAST member written before the failed call absorbs them (the
@@ -824,12 +866,24 @@ Proof. vm_compute. repeat split; reflexivity. Qed.
 Example later_writes_intact_example :
   let ops := [OCall AWritestr sx; OCall AWrite (sa_open true); OCall AWrite slink; OCall AWrite s_missing;
               OCall AWritef s_badname; OCall AWrite s_dangling; OCall AWritef (sa_read 0 false);
-              OWriteall false [sdir; sb; sa_open false; sy];
-              OWriteall true [sdir]; OCall AWritef sy] in
+              OWriteall false false [sdir; sb; sa_open false; sy];
+              OWriteall true false [sdir]; OCall AWritef sy] in
   forallb clean_op ops = true /\
   snd (run32 st0 ops) = [Returned; Raised; Returned; Raised; Raised; Raised; Raised; Raised; Raised; Returned] /\
   abs32 (fst (run32 st0 ops)) =
     Some [(0, MData [88; 88]); (5, MData [116]); (3, MDir); (2, MData [66; 66; 66]); (4, MData [89; 89; 89])].
+Proof. vm_compute. repeat split; reflexivity. Qed.
+
+(* the except clause of _writeall: an ELOOP failure is skipped under dereference=True only *)
+Definition s_eloop_open := mkSrc 10 KFile [70] (Some (mkFault FOpen true)) true.
+Example writeall_eloop_example :
+  let tree := [sdir; sb; s_eloop_open; sy] in
+  snd (run32 st0 [OWriteall false true tree]) = [Returned] /\
+  abs32 (fst (run32 st0 [OWriteall false true tree])) = Some [(3, MDir); (2, MData [66; 66; 66]); (4, MData [89; 89; 89])] /\
+  snd (run32 st0 [OWriteall false false tree]) = [Raised] /\
+  abs32 (fst (run32 st0 [OWriteall false false tree])) = Some [(3, MDir); (2, MData [66; 66; 66])] /\
+  snd (run32 st0 [OWriteall false true [sdir; sb; sa_open true; sy]]) = [Raised] /\
+  existsb (stops true) [sdir; sb; sa_open true; sy] = true /\ existsb (stops true) tree = false.
 Proof. vm_compute. repeat split; reflexivity. Qed.
 
 Lemma reachable_run : forall ops, reachable crc32 (fst (run32 st0 ops)).
@@ -842,7 +896,7 @@ Example failed_call_no_effect_example :
   wstep32 st0 (OCall AWrite (sa_open false)) = (set_init st0, Raised) /\ set_init (D:=Z) st0 <> st0 /\
   abs32 (set_init st0) = Some [] /\ abs32 st0 = Some [] /\
   fires AWritef (sa_read 3 true) = true /\ dirty AWritef (sa_read 3 true) = true /\
-  fires AWritestr (sa_read 3 true) = false /\ fires AWrite (mkSrc 3 KDir [] (Some (mkFault FOpen true))) = false.
+  fires AWritestr (sa_read 3 true) = false /\ fires AWrite (mkSrc 3 KDir [] (Some (mkFault FOpen true)) false) = false.
 Proof. vm_compute. repeat split; try reflexivity. discriminate. Qed.
 
 Example members_before_intact_example :
